@@ -1,4 +1,5 @@
 import ExaModel.Lemmas.FrameFeed
+import ExaModel.Lemmas.FramePy
 set_option linter.unusedSimpArgs false
 /-!
 # C06 — Message framing is independent of how TCP delivers the bytes
@@ -102,6 +103,25 @@ theorem c06_header_errors (max : Nat) (h : Bytes) :
   · split
     · rfl
     · cases lengthValid (hdrTy h) (hdrLen h) <;> simp
+
+/-- **The header decision of the model is the code's.** `Generated/PyFrame.lean` is the body of
+    `Connection.reader_async` between the read of the header and the read of the body, translated statement
+    by statement from /repo's source on every run (harness/pylite.py); on what M-Frame reads off the same 19
+    octets, with the validator instantiated by the generated per-type table, it returns `(length, type)`
+    exactly when `hdrErr` finds nothing, and raises exactly the code `hdrErr` gives otherwise — for every
+    header and every negotiated maximum.  A changed comparison, bound, order of the tests or exemption in the
+    reader breaks this obligation, whatever streams the correspondence happens to draw. -/
+theorem c06_py_header_decision (max : Nat) (h : Bytes) :
+    Exa.Generated.PyFrame.Connection.reader_async_header ⟨max⟩ (decide (h.take 16 ≠ marker)) (hdrTy h) (hdrLen h)
+      (lengthValid (hdrTy h) (hdrLen h)) = liftHdr max h :=
+  py_header_eq_model max h
+
+/-- non-vacuity: a KEEPALIVE header passes, one with length 18 is refused with 1/2, a bad marker with 1/1 -/
+example : liftHdr 4096 (marker ++ [0, 19, 4]) = .ret (19, 4) ⟨4096⟩ := by decide
+example : liftHdr 4096 (marker ++ [0, 18, 4]) = .raise 1 2 := by decide
+example : liftHdr 4096 (0 :: marker.drop 1 ++ [0, 19, 4]) = .raise 1 1 := by decide
+example : liftHdr 4096 (marker ++ [0, 20, 4]) = .raise 1 2 := by decide
+example : liftHdr 4096 (marker ++ [0, 20, 3]) = .ret (20, 3) ⟨4096⟩ := by decide
 
 /-- **A faulty header after any valid messages ends the session with that error, and nothing after
     it is interpreted**: the valid messages are delivered, then the error, the reader is dead,
